@@ -1,0 +1,174 @@
+//! Verification hooks, compiled only with the cargo feature `ypo_flute_verif`.
+//!
+//! Nothing in this module is reachable when the feature is off; the shipped
+//! behaviour of the crate is unchanged. The hooks put the few sources of
+//! nondeterminism the library does not already take as arguments (monotonic
+//! clock, TOI seed, mutex scheduling points) behind seams a deterministic
+//! simulator can own, and give it a loop budget and reach probes.
+
+use std::cell::{Cell, RefCell};
+use std::collections::BTreeMap;
+use std::time::Duration;
+
+thread_local! {
+    static CLOCK_BASE: Cell<Duration> = const { Cell::new(Duration::ZERO) };
+    static CLOCK_JITTER: Cell<Duration> = const { Cell::new(Duration::ZERO) };
+    static CLOCK_READS: Cell<u64> = const { Cell::new(0) };
+    static TOI_SEED: Cell<Option<u128>> = const { Cell::new(None) };
+    static LOOP_BUDGET: Cell<u64> = const { Cell::new(u64::MAX) };
+    static LOOP_COUNT: Cell<u64> = const { Cell::new(0) };
+    static PROBES: RefCell<BTreeMap<&'static str, u64>> = const { RefCell::new(BTreeMap::new()) };
+}
+
+/// Simulated monotonic clock (replaces `std::time::Instant` in the receiver).
+pub mod clock {
+    use super::*;
+
+    /// A point on the simulated monotonic clock.
+    #[derive(Clone, Copy, Debug, PartialEq, Eq, PartialOrd, Ord)]
+    pub struct Instant(Duration);
+
+    impl Instant {
+        /// Current simulated instant: `base + reads_since_set * jitter`.
+        pub fn now() -> Instant {
+            let reads = CLOCK_READS.with(|r| {
+                let v = r.get();
+                r.set(v + 1);
+                v
+            });
+            let jitter = CLOCK_JITTER.with(|j| j.get());
+            let base = CLOCK_BASE.with(|b| b.get());
+            Instant(base + jitter.saturating_mul(reads.min(u32::MAX as u64) as u32))
+        }
+
+        /// Simulated time elapsed since this instant.
+        pub fn elapsed(&self) -> Duration {
+            Instant::now().duration_since(*self)
+        }
+
+        /// Duration between two instants (saturating, like `std`).
+        pub fn duration_since(&self, earlier: Instant) -> Duration {
+            self.0.saturating_sub(earlier.0)
+        }
+    }
+
+    /// Set the simulated monotonic clock of the current thread.
+    pub fn set(base: Duration) {
+        CLOCK_BASE.with(|b| b.set(base));
+        CLOCK_READS.with(|r| r.set(0));
+    }
+
+    /// Amount the clock advances on every read (models a real clock moving inside one call).
+    pub fn set_jitter(jitter: Duration) {
+        CLOCK_JITTER.with(|j| j.set(jitter));
+    }
+}
+
+/// Value used instead of the OS random draw for the initial TOI (`None`: keep the draw).
+pub fn set_toi_seed(v: Option<u128>) {
+    TOI_SEED.with(|s| s.set(v));
+}
+
+pub(crate) fn toi_seed() -> Option<u128> {
+    TOI_SEED.with(|s| s.get())
+}
+
+/// Payload of the panic raised when the loop budget is exceeded.
+pub const LOOP_BUDGET_PANIC: &str = "ypo_flute_verif: loop budget exceeded at ";
+
+/// Reset the loop counter of the current thread and set its budget.
+pub fn reset_loop_budget(budget: u64) {
+    LOOP_BUDGET.with(|b| b.set(budget));
+    LOOP_COUNT.with(|c| c.set(0));
+}
+
+/// Number of loop iterations counted since the last reset.
+pub fn loop_count() -> u64 {
+    LOOP_COUNT.with(|c| c.get())
+}
+
+/// Count one iteration of a potentially unbounded loop.
+pub(crate) fn tick(site: &'static str) {
+    let n = LOOP_COUNT.with(|c| {
+        let v = c.get() + 1;
+        c.set(v);
+        v
+    });
+    if n > LOOP_BUDGET.with(|b| b.get()) {
+        LOOP_BUDGET.with(|b| b.set(u64::MAX));
+        panic!("{}{}", LOOP_BUDGET_PANIC, site);
+    }
+}
+
+/// Count that a branch of interest was reached.
+#[allow(dead_code)]
+pub(crate) fn probe(name: &'static str) {
+    PROBES.with(|p| *p.borrow_mut().entry(name).or_insert(0) += 1);
+}
+
+/// Take (and clear) the probe counters of the current thread.
+pub fn take_probes() -> BTreeMap<&'static str, u64> {
+    PROBES.with(|p| std::mem::take(&mut *p.borrow_mut()))
+}
+
+/// Mutex whose lock and unlock are scheduling points for a registered hook.
+pub mod sync {
+    static YIELD_HOOK: std::sync::RwLock<Option<fn()>> = std::sync::RwLock::new(None);
+
+    /// Register the function called before every lock and after every unlock.
+    pub fn set_yield_hook(hook: Option<fn()>) {
+        *YIELD_HOOK.write().unwrap() = hook;
+    }
+
+    fn yield_point() {
+        let h = *YIELD_HOOK.read().unwrap();
+        if let Some(f) = h {
+            f();
+        }
+    }
+
+    /// `std::sync::Mutex` with scheduling points.
+    #[derive(Debug)]
+    pub struct Mutex<T>(std::sync::Mutex<T>);
+
+    /// Guard of [`Mutex`].
+    #[derive(Debug)]
+    pub struct MutexGuard<'a, T>(Option<std::sync::MutexGuard<'a, T>>);
+
+    impl<T> Mutex<T> {
+        /// New mutex.
+        pub fn new(v: T) -> Self {
+            Mutex(std::sync::Mutex::new(v))
+        }
+
+        /// Lock; yields to the hook first.
+        #[allow(clippy::result_unit_err)]
+        pub fn lock(&self) -> Result<MutexGuard<'_, T>, ()> {
+            yield_point();
+            match self.0.lock() {
+                Ok(g) => Ok(MutexGuard(Some(g))),
+                Err(_) => Err(()),
+            }
+        }
+    }
+
+    impl<T> std::ops::Deref for MutexGuard<'_, T> {
+        type Target = T;
+        fn deref(&self) -> &T {
+            self.0.as_ref().unwrap()
+        }
+    }
+
+    impl<T> std::ops::DerefMut for MutexGuard<'_, T> {
+        fn deref_mut(&mut self) -> &mut T {
+            self.0.as_mut().unwrap()
+        }
+    }
+
+    impl<T> Drop for MutexGuard<'_, T> {
+        fn drop(&mut self) {
+            self.0.take();
+            yield_point();
+        }
+    }
+}
